@@ -17,6 +17,7 @@ package log
 
 import (
 	"fmt"
+	stdlog "log"
 	"net"
 	"net/http"
 
@@ -51,7 +52,7 @@ func (l Logger) ServeHTTP(w http.ResponseWriter, r *http.Request) (int, error) {
 			preURL := *r.URL
 
 			// Bon voyage, request!
-			status, err := l.Next.ServeHTTP(responseRecorder, r)
+			status, err := l.serveNext(responseRecorder, r)
 
 			if status >= 400 {
 				// There was an error up the chain, but no response has been written yet.
@@ -90,6 +91,20 @@ func (l Logger) ServeHTTP(w http.ResponseWriter, r *http.Request) (int, error) {
 			return status, err
 		}
 	}
+	return l.Next.ServeHTTP(w, r)
+}
+
+// serveNext calls the next handler. A panic below (one that no errors
+// middleware in between has recovered) is turned into a 500 here, so
+// that the request is answered through the recorder and gets its log
+// line like every other request the server answers itself.
+func (l Logger) serveNext(w http.ResponseWriter, r *http.Request) (status int, err error) {
+	defer func() {
+		if rec := recover(); rec != nil {
+			stdlog.Printf("[PANIC] %v", rec)
+			status, err = http.StatusInternalServerError, nil
+		}
+	}()
 	return l.Next.ServeHTTP(w, r)
 }
 
